@@ -52,6 +52,7 @@ func (s *Server) recoverLatestCommittedFSMLog(applyIndex uint64) (*raft.Log, err
 // committed to Raft as part of the recovery process. As such, this should be
 // an idempotent call.
 func (s *Server) Apply(l *raft.Log) interface{} {
+	verifGate("fsm.apply." + s.config.Clustering.ServerID)
 	// If recoveryStarted is false, the server was just started. We are going
 	// to recover the last committed Raft FSM log entry, if any, to determine
 	// the recovery high watermark. Once we apply all entries up to that point,
